@@ -89,7 +89,15 @@ def check(run):
         "K/C11: Jubjub extended-coordinate formulas, JubjubSubgroup::from_bytes = from_bytes then is_torsion_free (a 252-step double-and-add over oracle field ops; not expressible black-box without a Rust-level stub, which the native replay cannot follow)",
         "K/C11: secp256k1 (k256), Curve25519 (dalek), BN254 (dev-only) curve types",
     ]
-    kani.run_harnesses(run, CRATE, SPECS)
+    obs = kani.run_harnesses(run, CRATE, SPECS)
+    # corroboration with the REAL blst for the oracle-level subgroup finding (hand-built point (4, sqrt(68)) on E(Fp) \ G1)
+    hit = [o for o in obs if o.status == core.VIOLATION and o.key.endswith(":no-subgroup-check")]
+    if hit:
+        rc, out = kani.native_tool(CRATE, "replay_real", ["--witness", "g1-uncompressed-subgroup"])
+        note = ("real blst confirms: " if rc == 1 else f"real-blst witness did not confirm (rc={rc}): ") + " | ".join(out.strip().splitlines()[-2:])
+        for o in hit:
+            o.detail = (o.detail + " || " + note)[:900]
+        run.translator_validation.append("K/C11 oracle-level finding cross-checked against the real blst library: " + note)
 
 
 def replay(payload):
